@@ -42,7 +42,7 @@ CHECKS = {
         technique="Lean 4 proof (induction on the repeat loop; case analysis) + real-child differential runs in both capture modes",
         ref="§4 C19"),
     "C20": dict(
-        text="Theorems C20_sequential (every set of taken names: result = least free N >= 1), C20_fault (any other mkdir failure stops at once), C20_concurrent (every k, every pre-existing set, EVERY schedule of mkdir attempts: finished runs hold pairwise distinct, self-created, not pre-existing directories; invariant Safe by induction over the schedule). Tied to reducer.py by all subsets of tmp1..tmp6 as dirs/files, injected mkdir errors under a watchdog, and complete enumeration of interleavings of 2/3/4 logical runs at os.mkdir/stat/listdir granularity, plus real processes released together.",
+        text="Theorems C20_sequential (every set of taken names: result = least free N >= 1), C20_fault (any other mkdir failure stops at once), C20_sequential_names / C20_lookalikes_irrelevant / C20_names_refine (the same loop over a listing of NAMES: only the exact name \"tmp\"+str(N) counts, look-alikes such as tmp01 take no number away; refines the number-level loop), C20_concurrent (every k, every pre-existing set, EVERY schedule of mkdir attempts: finished runs hold pairwise distinct, self-created, not pre-existing directories; invariant Safe by induction over the schedule). Tied to reducer.py by all subsets of tmp1..tmp6 as dirs/files, injected mkdir errors under a watchdog, and complete enumeration of interleavings of 2/3/4 logical runs at os.mkdir/stat/listdir granularity, plus real processes released together.",
         note=NOTE + "Atomicity of mkdir(2) is assumed.",
         technique="Lean 4 proof (invariant over arbitrary schedules) + exhaustive interleaving enumeration of the real code",
         ref="§4 C20"),
